@@ -54,6 +54,14 @@ def make_specs(ctx: Ctx, n):
 
 def run(ctx: Ctx) -> Result:
     res = Result(ctx.prop)
+    if ctx.thorough:
+        # (MC) the implementation-shaped forward step (spec/Simulate.tla: data rows, first/last arg-max rules, selection
+        # through the optimal row) against the declarative decision rule, for every model of spec/Family.tla and every
+        # batch of two agents on nodes, inside cells and outside the grid range (invariant AgentIndependent)
+        from ..unitlib import mc_or_die
+
+        mc = mc_or_die("MC_Sim", "MC_Sim.cfg", workers=16)
+        res.merge_cov(states=mc["distinct"], transitions=mc["generated"], mc_states=mc["distinct"])
     specs = make_specs(ctx, ctx.n(40, 600))
     run_pipeline(ctx, res, specs, nontrivial=lambda s: s["plan"][0]["init"] and len(next(iter(s["plan"][0]["init"].values()))) >= 2)
     finalize_cov(res, "seeded random models (4 deterministic strata + 1 stochastic); each case simulates a reference batch "
